@@ -16,9 +16,12 @@ import model_diagnostics._config as cfgmod
 from common import write_case_file, shard
 
 VALS = {"none": None, "mpl": "matplotlib", "plotly": "plotly", "inv1": "XXX", "inv2": "Matplotlib", "inv3": 1,
-        "inv4": "", "inv5": 0, "inv6": False, "inv7": "plot", "inv8": "lib", "inv9": "matplotlibplotly"}
+        "inv4": "", "inv5": 0, "inv6": False, "inv7": "plot", "inv8": "lib", "inv9": "matplotlibplotly",
+        # invalid values that are containers (a tuple breaks %-formatting of an error message, a list is unhashable)
+        "inv10": ("matplotlib", "plotly"), "inv11": (), "inv12": ["matplotlib"], "inv13": (None, None)}
 COQ_ARG = {"none": "ANone", "mpl": "(AVal Matplotlib)", "plotly": "(AVal Plotly)", "inv1": "AInvalid",
-           "inv2": "AInvalid", "inv3": "AInvalid", "inv4": "AInvalid", "inv5": "AInvalid", "inv6": "AInvalid", "inv7": "AInvalid", "inv8": "AInvalid", "inv9": "AInvalid"}
+           "inv2": "AInvalid", "inv3": "AInvalid", "inv4": "AInvalid", "inv5": "AInvalid", "inv6": "AInvalid", "inv7": "AInvalid", "inv8": "AInvalid", "inv9": "AInvalid",
+           "inv10": "AInvalid", "inv11": "AInvalid", "inv12": "AInvalid", "inv13": "AInvalid"}
 COQ_B = {"matplotlib": "Matplotlib", "plotly": "Plotly"}
 
 
